@@ -318,6 +318,8 @@ impl<const H: usize> Writer<H> {
 
         self.flushed_offset.set(offset);
         self.write_offset = offset;
+        // Move the buffered writer's cursor back too, so the next record lands at `offset`
+        self.writer.seek(SeekFrom::Start(offset))?;
 
         // Write full zero header as clear truncation marker
         let zero_header = [0u8; RECORD_HEAD_SIZE];
